@@ -157,3 +157,61 @@ def interpolation(h):
     h.ensures("accepted_history_has_no_impossible_batch", z3.Implies(succ, z3.Not(impossible)), replay=hist_rp)
     rt_last = f_("results_turnout", n - 1)
     h.ensures("accepted_history_has_non_decreasing_turnout", z3.Implies(z3.And(succ, rt_last > 0), f_("results_turnout", i) <= f_("results_turnout", i + 1)), replay=hist_rp)
+
+
+# ---- the outer function: which history each unit's interpolation receives ------------------------------------------------
+OUTER = f"{VD}.compute_versioned_margin_estimate"
+
+
+@unit("C17", "histories.every_unit_gets_its_own_complete_history", fns=[OUTER])
+def histories(h):
+    """compute_versioned_margin_estimate (its real statements up to and including the groupby(...).apply(...)): the
+    per-unit function is called, for every unit that has versions, on exactly the rows of that unit -- all of them, none of
+    another unit, in their original order -- with missing cells replaced by 0 and every other cell as given"""
+    from pyvc.frames import SeriesRecord
+
+    root, fips = frames.unit_universe("version_rows")  # one row per (unit, version); `fips` here is only a row id
+    h.ctx.assume(z3.And(*root.facts()))
+    u = root.u
+    I, R, S, B = z3.IntSort(), z3.RealSort(), z3.StringSort(), z3.BoolSort()
+    inData = z3.Function("inData", I, B)(u)
+    unit_id = z3.Function("unit_of_row", I, S)(u)
+    cols = {"geographic_unit_fips": unit_id}
+    nulls = {}
+    for c in ("results_turnout", "percent_expected_vote", "results_dem", "results_gop", "results_weights", "results_normalized_margin"):
+        nulls[c] = z3.Function("null_" + c, I, B)(u)
+        cols[c] = V(z3.Function("raw_" + c, I, R)(u), (), None, nulls[c])
+    data = frames.base_frame(root, inData, cols, None)
+    order_before = data.axis.order
+    seen = []
+
+    def per_unit(interp, df):
+        seen.append(df)
+        return SeriesRecord({"est_margin": V(z3.Real("some_estimate"))})
+
+    h.contracts[FN] = per_unit
+    h.default_replay = lambda ev: {"target": "verif_replays:versioned_histories_replay", "args": [], "check": "result['exc'] is None and result['ok']"}
+    self = h.obj(VD, data=data)
+    kind, env = h.slice(OUTER, first_assign="results", last_assign="results", env={"self": self, "data": None})
+    if kind == "raise":
+        return h.fail("no_raise", f"raised {env}")
+    h.ensures("the_per_unit_function_is_applied_once_to_the_generic_unit", len(seen) == 1)
+    if len(seen) != 1:
+        return
+    view = seen[0]
+    gk = [k for k in h.ctx.pc if False]
+    ax = view.axis
+    facts = z3.And(*root.facts())
+    # the generic unit of the grouping: the key constant of the group space
+    res = env["results"]
+    gs = res.axis.root
+    g = gs.keyvars["geographic_unit_fips"]
+    h.ensures("a_row_is_handed_to_its_own_unit_and_only_to_it", z3.Implies(facts, ax.present() == z3.And(inData, unit_id == g)))
+    h.ensures("no_version_is_dropped_or_repeated", len(ax.doms) == 1)
+    h.ensures("versions_stay_in_their_original_order", ax.order in (order_before, ("group", order_before)), why=str(ax.order))
+    rows = z3.And(*ax.facts())
+    for c in nulls:
+        col = view.col(c)
+        raw = z3.Function("raw_" + c, I, R)(u)
+        h.ensures(f"{c}.missing_cells_are_zero_and_every_other_cell_is_as_given", z3.Implies(rows, z3.And(real(col.t) == z3.If(nulls[c], 0, raw), z3.Not(col.nan) if col.nan is not None else z3.BoolVal(True))))
+    h.ensures("a_unit_with_versions_has_a_result", z3.Implies(z3.And(facts, inData, unit_id == g), res.axis.present()))
